@@ -146,16 +146,31 @@ SUITES = {
         trace=dict(module="Trace_Claims", cfg_in="Trace_Claims.cfg.in", timeout=4 * 3600, split=4),
         props=["C10"],
     ),
+    "power": dict(
+        # the storage power actor itself: claims, totals under the consensus-minimum rule, cron queue, pledge total
+        # (built by a builder sub-agent from notes/BRIEF-POWER.md; details in notes/POWER.md)
+        mc=[dict(module="MC_Power", cfg=tiered("MC_Power.cfg", "MC_Power_thorough.cfg"),
+                 timeout=tiered(1500, 5400), workers=4),
+            # the tick's claim-deletion loop as coded counts a twice-failing miner twice: TLC must find it (notes/POWER.md 6)
+            dict(module="MC_Power", cfg="MC_Power_count.cfg", timeout=tiered(600, 600), workers=2,
+                 expect_violation="InvCount")],
+        sim=dict(module="MC_Power", cfg="Sim_Power.cfg", num=tiered(12, 300), depth=40),
+        tour_cap=tiered(400, 10 ** 9),
+        driver="power",
+        driver_args=lambda tier: ["--random", 40 if tier == "quick" else 3000, "--len", 45],
+        trace=dict(module="Trace_Power", cfg_in="Trace_Power.cfg.in", timeout=2 * 3600, split=tiered(4, 8)),
+        props=["C02", "C03", "C05", "C11"],
+    ),
 }
 
 # property -> suites whose traces carry formulas tagged with that property
 PROPS = {
     "C16": dict(suites=["paych"], title="Payment channel: vouchers redeem once and the payout is exact"),
     "C01": dict(suites=["sectors", "market", "paych"], title="No FIL is created, lost or stranded: conservation and solvency"),
-    "C02": dict(suites=["sectors"], title="Power is credited exactly for proven, healthy, unexpired sectors"),
-    "C03": dict(suites=["sectors"], title="Collateral ledgers are exact: pledge, deposits and the network pledge total"),
+    "C02": dict(suites=["sectors", "power"], title="Power is credited exactly for proven, healthy, unexpired sectors"),
+    "C03": dict(suites=["sectors", "power"], title="Collateral ledgers are exact: pledge, deposits and the network pledge total"),
     "C04": dict(suites=["sectors"], title="Sector bookkeeping stays a consistent partition of the miner's sectors"),
-    "C05": dict(suites=["sectors", "market"], title="The epoch cron never fails and keeps every active miner on schedule"),
+    "C05": dict(suites=["sectors", "market", "power"], title="The epoch cron never fails and keeps every active miner on schedule"),
     "C09": dict(suites=["verif"], title="DataCap is conserved and each allocation is spent exactly once"),
     "C06": dict(suites=["market"], title="Market escrow: locked funds equal outstanding deal obligations"),
     "C07": dict(suites=["market"], title="Deal payments are exact and independent of the settlement schedule"),
@@ -168,7 +183,7 @@ PROPS = {
     "C17": dict(suites=["evm17"], title="EVM instructions compute what the Ethereum specification says"),
     "C18": dict(suites=["evm18"], title="EVM execution is total, bounded and respects read-only mode"),
     "C19": dict(suites=["evmcalls"], title="EVM contract state stays coherent across nested, re-entrant and reverted calls"),
-    "C11": dict(suites=["access"], title="Privileged methods are callable only by their designated callers"),
+    "C11": dict(suites=["access", "power"], title="Privileged methods are callable only by their designated callers"),
     "C10": dict(suites=["claims", "verif"], title="Verified claims back quality-adjusted power and obey their terms"),
 }
 
@@ -181,10 +196,10 @@ _SEC = ("System-level conformance: guided random schedules of USER messages only
 LEVEL_TEXT = {
     "C18": "spec/EVM.tla is total by construction (every byte string has exactly one outcome: stop/return, revert, or one of undefined / invalid / underflow / overflow / bad jump destination / memory beyond the 32-bit limit / memory cap / read-only violation); TLC checks totality (no deadlock), the stack bound, 'pc never inside push data', 'jump destinations = JUMPDEST bytes at instruction boundaries' and 'no storage write in a static frame' over every byte string up to a small length over reduced alphabets, in normal and static context (MC_EVM). Conformance: arbitrary byte strings (uniformly random, instruction-sequence grammar, mutated from valid generated programs) are deployed through the real EAM as runtime code, run as init code (and the contracts they create are then called), and run beneath STATICCALL at nesting depth 1-3 through CALL / DELEGATECALL / STATICCALL proxy chains (the VM, like the repository's reference test_vm, does not police events in read-only mode: the actor must refuse by itself), a stack-limit edge family (1024 one-word pushes followed by ONE instruction of every kind), with code biased towards SSTORE, TSTORE, LOG0-4, CREATE, CREATE2, SELFDESTRUCT and CALL-with-value. TLC validates every recorded interpreter step: stack depth <= 1024, memory size within the bound, every taken JUMP/JUMPI lands one past a byte that the specification's jump-destination analysis accepts; at the end of every run: no panic, no unexplained exhaustion of the step budget, the outcome class is a defined one and equals the specification's whenever the program stays inside the specified instruction set (the static frames are re-executed by the specification with static = TRUE: a state-changing instruction must end the frame); after every static call the whole state tree (code, state root and balance of every actor, the set of actors) and the event list are unchanged.",
     "C01": _SEC + "C01 formulas: TotalFilConstant, LedgerDelta (every actor's balance change equals the effective transfers of the invocation tree, failed messages change nothing), MinerSolvent, MarketSolvent (Market suite), paych Solvent (Paych suite), RewardNeverFails, MarketNoStranding (what the market holds beyond the escrow balances never changes through a market operation; also an action property of the model-checked Market module); also under injected failures of tolerated nested sends.",
-    "C02": _SEC + "C02 formulas: PowerIsActive (claim = sum over proven, non-faulty, non-terminated sectors recomputed from partition bitfields), TotalsOK (consensus-minimum rule), ProvenOnlyByPoSt / RecoveredOnlyByPoSt (a sector enters the active set only through an accepted Window PoSt naming its partition; a faulty one only if it was declared recovering), SkippedFaulted, MissedPoStFaulted (every deadline that closes during a tick leaves the live sectors of its unproven partitions faulty or terminated).",
-    "C03": _SEC + "C03 formulas: PledgeExact, DepositsExact, VestExact, NonNegLedgers, NetPledgeTotal (literal; known finding F1 is reported when only the exact adjusted identity holds), NetPledgeNonNeg, PledgeTotalNeverBlocks.",
+    "C02": _SEC + "C02 formulas: PowerIsActive (claim = sum over proven, non-faulty, non-terminated sectors recomputed from partition bitfields), TotalsOK (consensus-minimum rule), ProvenOnlyByPoSt / RecoveredOnlyByPoSt (a sector enters the active set only through an accepted Window PoSt naming its partition; a faulty one only if it was declared recovering), SkippedFaulted, MissedPoStFaulted (every deadline that closes during a tick leaves the live sectors of its unproven partitions faulty or terminated). Power suite: bounded exhaustive TLC model checking of spec/Power.tla, the storage power actor structured like the code (add_to_claim's threshold-crossing cases, the miner_above_min_power_count / CONSENSUS_MINER_MIN_MINERS regime switch of current_total_power, claim deletion by the tick), every interleaving of CreateMiner, UpdateClaimedPower with deltas crossing the threshold in both directions, cron enrolments and ticks with failing callbacks by miners with and without a claim and by non-miners, with a transition tour; conformance: tour, simulation behaviours (real regime constant 4) and guided random schedules on the real power actor with real miner actors (power updates sent as those miners), CurrentTotalPower called after every step; formulas TotalsRule (what would be frozen = sum over claims >= minimum if at least MinMiners reach it, else over all claims; committed totals; above-minimum count), StoredTotals, ReportRule (the reported values are the frozen ones and equal the rule right after every tick), ClaimsNonNeg, ClaimsChangeOnlyByOwner.",
+    "C03": _SEC + "C03 formulas: PledgeExact, DepositsExact, VestExact, NonNegLedgers, NetPledgeTotal (literal; known finding F1 is reported when only the exact adjusted identity holds), NetPledgeNonNeg, PledgeTotalNeverBlocks. Power suite (same model and traces): PledgeTotalNonNeg (the network pledge total and its frozen copy are never negative: an update that would make it negative aborts), PledgeFrame (the total changes only by an accepted UpdatePledgeTotal of a miner holding a claim, by exactly its delta).",
     "C04": _SEC + "C04 formulas: SetsNest, OnePartition, PartMemos, DlMemos, EarlyDls, QueueOK, DlQueueCovers (the deadline-level expiration queue names every partition at every epoch of that partition's own queue), AllocCovers, NumbersFresh (the allocated set only grows; new numbers were unallocated).",
-    "C05": _SEC + "C05 formulas: CronNeverFails, NoBalanceInvariantBroken, NoPanic, CronScheduled, CronWhileFunded (known finding F2), DeadlineCurrent, QueueNotStale, NoOverdueExpiry, EarlyTermsScheduled, EarlyTermsProgress (bounded liveness: of the sectors awaiting early-termination processing at least one has been processed two challenge windows later); CronOK in the Market suite.",
+    "C05": _SEC + "C05 formulas: CronNeverFails, NoBalanceInvariantBroken, NoPanic, CronScheduled, CronWhileFunded (known finding F2), DeadlineCurrent, QueueNotStale, NoOverdueExpiry, EarlyTermsScheduled, EarlyTermsProgress (bounded liveness: of the sectors awaiting early-termination processing at least one has been processed two challenge windows later); CronOK in the Market suite. Power suite (same model and traces; the tick is the real cron message, callbacks reach the real miners, failures by undecodable payloads and by fault plans on individual power->miner sends): CronEventsOnlyByMiners, QueueOnlyFutureOrDue, QueueKeeps, TickDrainsDue (after a tick no event with epoch <= now remains), TickDispatchesDue (every due event of a miner with a claim is dispatched exactly once), FailedCallbackDeletesOnlyThatClaim, TickNeverFails, CronNeverFails (no callback fails unless made to).",
     "C09": "Bounded exhaustive TLC model checking of spec/VerifReg.tla (verifier/client grants, allocation transfers with extension requests, claim batches with repeated / foreign / mismatched / expired entries in both all-or-nothing modes, expirations, removals, term extensions, DataCap removal) + conformance: transition tour, simulation behaviours and guided random schedules on the real datacap + verifreg + multisig(root) + miner actors; every step validated by TLC. Formulas: SupplyIsSum, SupplyIsMintedMinusBurnt, RegistryHoldsAllocs, AllowanceExact (the allowance falls only by a grant that arrived at the client; clients that cannot receive tokens are among the generated ones), MintOnlyByGrant, AllocFate, ClaimsFromAllocs, IdsFresh.",
     "C10": "Bounded exhaustive TLC model checking of spec/Claims.tla, the composition of the verified registry (spec/VerifReg.tla) with one miner's sectors, under the driver's scaled-down policy (4 deadlines x 6 epochs, 72-epoch minimum sector life, 48-epoch end-of-life claim-drop period, claim terms of 24..4000 epochs) so that every behaviour replays 1:1: allocation transfers, non-interactive commitment of a CC sector, ProveReplicaUpdates3 / PreCommit + ProveCommitSectors3 with piece manifests naming open, stale, repeated and foreign allocation ids, ExtendSectorExpiration2 with every maintain / drop declaration shape (missing, partial, repeated, foreign and previously dropped ids; one or two declarations per message, the same sector twice), ExtendClaimTerms, RemoveExpiredClaims / RemoveExpiredAllocations, TerminateSectors, and time jumps to every epoch where something changes (first proof, deadline mutability, drop period, expiration, expiry cron, term end, allocation expiry); the C10 formulas are invariants (Backed = WeightBacked + ClaimStartsAfterActivation + ExpirationWithinTerms with one witness set of claims) and action properties (ExtendPastMaxOnlyByDrop, DroppedWeightGone, WeightChangesOnlyByDecl, ClaimTermsMonotone, ClaimRemovalOnlyExpired, AllocRemovalOnlyExpired). With the extension rule as first written (constants DupIdsAllowed / MultiDeclAllowed, spec/MC_Claims_F5.cfg, MC_Claims_F7.cfg) TLC finds the repeated-id and the twice-declared-sector counterexamples in under a minute. Conformance: a transition tour of the model, TLC simulation behaviours and guided random schedules (both onboarding paths, sectors living ~3000 epochs on the pre-commit path) run on the real datacap, verified-registry, miner, power and cron actors (miner created through the power actor, cron every epoch, the driver submits every due Window PoSt); after every call the registry (from its state AND through GetClaims), every sector's activation / expiration / power-base epoch / verified weight / partition flags and the power actor's claim are validated by TLC: Layer P = the formulas above plus WeightIsSpaceTimesDuration, GetClaimsAgrees, QAPowerFalls, RejectedIsNoop; Layer R = verdict, batch results and post-state equal the model's. The registry-only clauses are additionally decided by the VerifReg suite (ClaimTermsMonotone, ClaimRemovalOnlyExpired).",
     "C17": "spec/Words.tla + spec/EVM.tla are an executable TLA+ transcription of the Yellow Paper / EIP semantics of the arithmetic, comparison, bitwise, stack, memory, storage, transient-storage, call-data/code/return-data copying, hashing (uninterpreted), control-flow and RETURN/REVERT instructions (Words.tla is cross-checked against Python integers on 5 685 generated vectors). TLC model-checks the machine's own invariants and totality over every byte string up to a small length (MC_EVM). Conformance: generated programs (every instruction over the boundary lattice: all pairs for binary, sampled triples for ternary instructions; memory/copy/storage/jump case families; deliberately ill-formed programs; all tiny byte strings of the model's alphabets; generated multi-instruction programs with loops, jumps, memory growth, storage and calldata) are deployed through the real EAM and run in the real interpreter on the recording VM with a per-step observer; TLC re-executes every program in the specification and compares every recorded step (pc, opcode, stack content, memory size) and the final outcome class, return/revert data and contract storage (read from the KAMT and via GetStorageAt).",
@@ -197,7 +212,7 @@ LEVEL_TEXT = {
     "C12": "Bounded exhaustive TLC model checking of spec/Multisig.tla (every interleaving of propose/approve/cancel by signers and outsiders with admin transactions and re-entrant self-calls executed inside the approving step, within small constants) + conformance: TLC-exported behaviours and random schedules run on the real multisig actor (created through init, inner sends really executed) and each recorded step is validated by TLC against the C12 formulas and the spec's transition function.",
     "C16": "Bounded exhaustive TLC model checking of spec/Paych.tla (all voucher/settle/collect interleavings within small constants, C16 formulas as invariants and action properties) + conformance: TLC-exported behaviours and random schedules are executed on the real paych actor and every recorded step is validated by TLC against the same formulas and the spec's transition relation.",
     "C20": "Bounded exhaustive TLC model checking of spec/Init.tla (init.Exec/Exec4 creator-code matrix, EAM CreateExternal, CREATE/CREATE2 issued by contracts running nested programs with reverting frames, failing constructors, self-destruct and resurrection, auto-created accounts and placeholders, deployments landing on placeholders; the C20 formulas as action properties over (pre-state, call + observed creations, post-state), Keccak/RLP as an injective uninterpreted function) + conformance: a transition tour of the model, TLC simulation behaviours and guided random schedules run on the real init, EAM, EVM, multisig, paych, power/miner actors (contracts are real EVM bytecode interpreting the programs); every recorded step validated by TLC; the literal CREATE/CREATE2 address bytes are re-computed by the harness with its own RLP + Keccak-256 (formula AddrFormula).",
-    "C11": "spec/Access.tla states the INTENDED caller-permission table of all 16 built-in actor types (every dispatched method number, exported FRC-42 aliases as separate rows, parameter variants where the designated set depends on what the parameters name, deprecated / never-assigned numbers and the FRC-42 numbers internal-only methods would get if exported) over 29 caller classes (9 singletons, a miner, accounts in every role of the fixture - owner, worker, control, beneficiary, nominee, pending owner, signer, proposer, payer, payee, verifier, client, operator -, an outside account, an EthAccount, an EVM contract, non-built-in code, the root multisig, the actor itself), written from the method documentation and FIPs. TLC checks the table-level invariants (internal numbers never admit contracts or unknown code outside EAM/EVM, constructors only init/system, protocol-plumbing methods admit exactly one class, undefined numbers admit nobody, aliases agree) and enumerates the whole finite matrix, exporting every cell. Conformance, exhaustive over the matrix: every cell is executed on the real actors from a fresh copy of a rich fixture world (two fixture states, two parameter modes: well-typed defaults, and parameters for which the designated caller succeeds) with the caller class impersonated as the message sender; per cell TLC evaluates NonDesignatedRejected (rejected and state tree unchanged), DesignatedAccepted (never refused by a caller check; exit 0 with success parameters), RestrictiveCheckAgrees, ValidatedBeforeEffects, CompletedImpliesValidated, InternalNotForEvm, UndefinedRejected, NoPanic.",
+    "C11": "spec/Access.tla states the INTENDED caller-permission table of all 16 built-in actor types (every dispatched method number, exported FRC-42 aliases as separate rows, parameter variants where the designated set depends on what the parameters name, deprecated / never-assigned numbers and the FRC-42 numbers internal-only methods would get if exported) over 29 caller classes (9 singletons, a miner, accounts in every role of the fixture - owner, worker, control, beneficiary, nominee, pending owner, signer, proposer, payer, payee, verifier, client, operator -, an outside account, an EthAccount, an EVM contract, non-built-in code, the root multisig, the actor itself), written from the method documentation and FIPs. TLC checks the table-level invariants (internal numbers never admit contracts or unknown code outside EAM/EVM, constructors only init/system, protocol-plumbing methods admit exactly one class, undefined numbers admit nobody, aliases agree) and enumerates the whole finite matrix, exporting every cell. Conformance, exhaustive over the matrix: every cell is executed on the real actors from a fresh copy of a rich fixture world (two fixture states, two parameter modes: well-typed defaults, and parameters for which the designated caller succeeds) with the caller class impersonated as the message sender; per cell TLC evaluates NonDesignatedRejected (rejected and state tree unchanged), DesignatedAccepted (never refused by a caller check; exit 0 with success parameters), RestrictiveCheckAgrees, ValidatedBeforeEffects, CompletedImpliesValidated, InternalNotForEvm, UndefinedRejected, NoPanic. Power suite (same model and traces): CallerRules (UpdateClaimedPower / EnrollCronEvent / UpdatePledgeTotal refused for non-miner callers, OnEpochTickEnd for anybody but cron, power and pledge updates only for miners holding a claim, CreateMiner by anyone), DesignatedAccepted, RejectedIsNoop, CreateForwardsValue.",
     "C19": "Bounded exhaustive TLC model checking of spec/EVMCalls.tla, the ideal semantics of a system of script-running contracts (per-contract storage, transient storage per message, balances, tombstones, journalled revert, DELEGATECALL / STATICCALL contexts, CREATE/CREATE2 incl. resurrection, SELFDESTRUCT): every script of a generated alphabet (write/call/read patterns over all call kinds and targets, nesting 3 with re-entrancy, reverting / aborting / self-destructing callees) from two initial worlds, with the semantics' meta-properties (a reverted or aborted sub-call leaves the world unchanged, static calls have no effect, transient storage is empty at message start, delegate code runs on the caller's storage, destroyed contracts are empty) as invariants + conformance: the transition tour, TLC simulation behaviours and guided random scripts are compiled to call data for a script-interpreter contract (real EVM bytecode deployed through the real EAM) and run on the real EVM actor; every value read inside the call tree, the outcome, every contract's storage (GetStorageAt), code (GetBytecode), balances, tombstones and effective events are validated by TLC against the ideal semantics (formulas ReadsCoherent, TransientScope, DelegateContext, StorageCoherent, BalancesCoherent, LogsCoherent, TombstoneCoherent, RevertLeavesNoTrace, StaticNoEffect, DestroyedIsEmpty, TombstoneLifecycle).",
 }
 LEVEL_NOTE = {
